@@ -20,7 +20,7 @@ out = []
 out.append("Each change below was written by a fresh sub-agent that saw only the property text and its own scratch")
 out.append("worktree (round 1: two changes per property, `<ID>-mK`; rounds 2 and 3: three more per property each,")
 out.append("`<ID>-r2mK`, `<ID>-r3mK`, with the descriptions of the earlier rounds given as \"already delivered, find different")
-out.append("ones\"; rounds 4 and 5, `<ID>-r4mK` / `<ID>-r5mK`: up to two per property (twelve, then the other eight properties), asked to be *hard to hit* - a rare")
+out.append("ones\"; rounds 4 to 6, `<ID>-r4mK` .. `<ID>-r6mK`: up to two per property (twelve, the other eight, then eight again), asked to be *hard to hit* - a rare")
 out.append("coincidence, one level, one length, a three-call order; `tools/seed_prompt_template.txt` is what an agent got). Each compiles, passes the unedited 198-test suite (confirmed by me in another scratch worktree with")
 out.append("`tools/confirm_mutant.sh`: suite with the patch, demonstration with the patch in debug and release,")
 out.append("demonstration without it) and is kept under `/verif/seeded/<name>/` (patch.diff, demo.rs, meta.json). \"caught")
